@@ -29,13 +29,15 @@ pub struct FaultyStore {
     pub calls: Mutex<Vec<String>>,
     /// while set, every mutating call fails with nothing written
     pub fail_all: Arc<AtomicBool>,
+    /// the next call of this read ("list" = get_keyspace_list, "meta" = iter_metadata) fails once
+    pub fail_read: Mutex<Option<&'static str>>,
     /// while non-zero, every mutating call first waits this many milliseconds (a replica that answers late)
     pub delay_ms: Arc<AtomicU64>,
 }
 
 impl FaultyStore {
     pub fn on(inner: Arc<MemStore>) -> Self {
-        Self { inner, plan: Mutex::new(Plan::Ok), parked: Notify::new(), calls: Mutex::new(vec![]), fail_all: Arc::new(AtomicBool::new(false)), delay_ms: Arc::new(AtomicU64::new(0)) }
+        Self { inner, plan: Mutex::new(Plan::Ok), parked: Notify::new(), calls: Mutex::new(vec![]), fail_read: Mutex::new(None), fail_all: Arc::new(AtomicBool::new(false)), delay_ms: Arc::new(AtomicU64::new(0)) }
     }
 
     pub fn set_plan(&self, p: Plan) {
@@ -83,10 +85,18 @@ impl Storage for FaultyStore {
     type MetadataIter = <MemStore as Storage>::MetadataIter;
 
     async fn get_keyspace_list(&self) -> Result<Vec<String>, Self::Error> {
+        if *self.fail_read.lock() == Some("list") {
+            *self.fail_read.lock() = None;
+            return Err(injected());
+        }
         self.inner.get_keyspace_list().await
     }
 
     async fn iter_metadata(&self, keyspace: &str) -> Result<Self::MetadataIter, Self::Error> {
+        if *self.fail_read.lock() == Some("meta") {
+            *self.fail_read.lock() = None;
+            return Err(injected());
+        }
         self.inner.iter_metadata(keyspace).await
     }
 
